@@ -137,14 +137,29 @@ func isDecodeCall(c *ssa.Call) bool {
 
 // run iterates the whole-program summaries to a fixpoint, then collects sink verdicts.
 func (ba *boundAnalysis) run() {
-	for iter := 0; iter < 20; iter++ {
-		changed := false
-		for _, fn := range ba.fns {
-			if ba.analyze(fn, false) {
-				changed = true
+	inner := func() {
+		for iter := 0; iter < 20; iter++ {
+			changed := false
+			for _, fn := range ba.fns {
+				if ba.analyze(fn, false) {
+					changed = true
+				}
+			}
+			if !changed {
+				break
 			}
 		}
-		if !changed {
+	}
+	inner()
+	// The "raw" summaries only grow during a fixpoint, while the "validates" summaries of callees are still being
+	// discovered: a call site analysed before its validating callee was summarised marks its argument raw for good.
+	// Restart the raw summaries under the validation summaries found so far until nothing changes (each stage is
+	// sound given the sound summaries of the stage before; raw sets can only shrink, validation sets only grow).
+	for stage := 0; stage < 3; stage++ {
+		sig := ba.rawSignature()
+		ba.rawResult, ba.rawParam, ba.rawField, ba.passThru = map[*ssa.Function][]bool{}, map[*ssa.Function][]bool{}, map[*types.Var]string{}, map[*ssa.Function][]bool{}
+		inner()
+		if ba.rawSignature() == sig {
 			break
 		}
 	}
@@ -515,8 +530,14 @@ func (s *fnState) guardFacts(cond ssa.Value, onTrue bool, G valSet) {
 			s.validationFacts(c, onTrue, G)
 			return
 		}
-		// evaluate both against the incoming G before adding anything
-		bx, by := s.isBounded(x, G), s.isBounded(y, G)
+		// evaluate both against the incoming G before adding anything; a parameter that no call site is known to feed
+		// with input-derived values (only hypothetically raw, for this function's own summary) is a bound like any other
+		hypOnly := func(v ssa.Value) bool {
+			ri := s.raw[stripConv(v)]
+			_, isParam := stripConv(v).(*ssa.Parameter)
+			return isParam && ri != nil && !ri.real()
+		}
+		bx, by := s.isBounded(x, G) || hypOnly(x), s.isBounded(y, G) || hypOnly(y)
 		if xBoundedByY && by {
 			addBounded(G, x)
 		}
@@ -968,4 +989,20 @@ func (ba *boundAnalysis) sortedReports() []sinkReport {
 		return rs[i].instr.Pos() < rs[j].instr.Pos()
 	})
 	return rs
+}
+
+// rawSignature: a canonical rendering of the raw summaries (to detect that a restart changed nothing).
+func (ba *boundAnalysis) rawSignature() string {
+	var parts []string
+	for f, v := range ba.rawParam {
+		parts = append(parts, "P:"+f.String()+fmt.Sprint(v))
+	}
+	for f, v := range ba.rawResult {
+		parts = append(parts, "R:"+f.String()+fmt.Sprint(v))
+	}
+	for fv := range ba.rawField {
+		parts = append(parts, "F:"+fv.Pkg().Path()+"."+fv.Name()+fmt.Sprint(fv.Pos()))
+	}
+	sort.Strings(parts)
+	return strings.Join(parts, ";")
 }
